@@ -80,6 +80,43 @@ class LoaderSummary:
     stores_into_data: List[Tuple[str, int]] = field(default_factory=list)
     containers_created: Dict[str, str] = field(default_factory=dict)    # var -> creating expression text
     problems: List[Tuple[str, int]] = field(default_factory=list)
+    absence: List[Tuple[Optional[Path], str, int]] = field(default_factory=list)   # (looked-up path, decision, line)
+
+
+def access_try_scopes(fn: ast.FunctionDef, prefixes=("loader_", "dumper_")) -> List[Tuple[str, str, int]]:
+    """(handler classes, field function called in the guarded body, line) for every field-function call that is exposed to a
+    handler catching a specific access error (KeyError/AttributeError/IndexError/TypeLoadError...): such a handler means
+    'the field/node is absent or ill-typed' and may see exceptions of the access only, never of the field function.  A call is
+    exposed to the handlers of an enclosing try when no try in between catches Exception."""
+    parents: Dict[int, ast.AST] = {}
+    for p in ast.walk(fn):
+        for c in ast.iter_child_nodes(p):
+            parents[id(c)] = p
+    out = []
+    for c in ast.walk(fn):
+        if not (isinstance(c, ast.Call) and isinstance(c.func, ast.Name) and c.func.id.startswith(prefixes)):
+            continue
+        child: ast.AST = c
+        p = parents.get(id(c))
+        while p is not None and p is not fn:
+            if isinstance(p, ast.Try) and any(child is b for b in p.body):
+                names = [norm(h.type).split(".")[-1] if h.type is not None else "bare" for h in p.handlers]
+                flat = []
+                for h in p.handlers:
+                    if h.type is None:
+                        flat.append("bare")
+                    elif isinstance(h.type, ast.Tuple):
+                        flat += [norm(e).split(".")[-1] for e in h.type.elts]
+                    else:
+                        flat.append(norm(h.type).split(".")[-1])
+                specific = [n for n in flat if n not in ("Exception", "BaseException", "LoadError", "bare")]
+                if specific:
+                    out.append((", ".join(specific), c.func.id, c.lineno))
+                if any(n in ("Exception", "BaseException", "bare") for n in flat):
+                    break
+            child = p
+            p = parents.get(id(p))
+    return out
 
 
 def _const(e: ast.expr):
@@ -156,9 +193,28 @@ def audit_loader(fn: ast.FunctionDef) -> LoaderSummary:
                             var_path[name] = var_path[getter_of] + (_const(val.args[0]),)
                         except KeyError:
                             S.problems.append((f"getter call with non constant key: {norm(val)}", st.lineno))
+                    # how absence of the key is decided: .get(key, sentinel) followed by an identity test with the sentinel
+                    dflt = norm(val.args[1]) if len(val.args) > 1 else None
+                    blk = _block_of(parents.get(id(st)), st)
+                    nxt = blk[blk.index(st) + 1] if blk and blk.index(st) + 1 < len(blk) else None
+                    par = parents.get(id(st))
+                    if nxt is None and isinstance(par, ast.Try) and par.body == [st] and par.orelse:
+                        nxt = par.orelse[0]     # try: value = getter(..) except <unexpected>: ... else: if value is sentinel
+                    test = norm(nxt.test) if isinstance(nxt, ast.If) else None
+                    if dflt == "sentinel" and test in (f"{name} is sentinel", f"{name} is not sentinel"):
+                        S.absence.append((var_path.get(name), "key-missing", st.lineno))
+                    else:
+                        S.absence.append((var_path.get(name), f"other: {norm(val)} / {test}", st.lineno))
                     continue
                 if sp is not None and (name.startswith("data_") or name.startswith("r_") or name == "value"):
                     var_path[name] = sp
+                    tr = parents.get(id(st))
+                    if isinstance(tr, ast.Try) and any(st is b for b in tr.body):
+                        hs = sorted({norm(h.type) if h.type is not None else "bare" for h in tr.handlers})
+                        only = len(tr.body) == 1
+                        if name == "value":
+                            S.absence.append((sp, "key-missing" if (hs == ["KeyError"] and only) else f"other: except {hs} over {len(tr.body)} stmts",
+                                              st.lineno))
                     if name.startswith("data_"):
                         S.node_vars[name] = sp
                     continue
@@ -253,6 +309,20 @@ def audit_loader(fn: ast.FunctionDef) -> LoaderSummary:
                 expr = expr.args[0]
             _record_reject(S, expr, st.lineno, var_path)
     return S
+
+
+def _block_of(parent: Optional[ast.AST], st: ast.stmt) -> Optional[List[ast.stmt]]:
+    if parent is None:
+        return None
+    for attr in ("body", "orelse", "finalbody"):
+        blk = getattr(parent, attr, None)
+        if isinstance(blk, list) and any(st is b for b in blk):
+            return blk
+    if isinstance(parent, ast.Try):
+        for h in parent.handlers:
+            if any(st is b for b in h.body):
+                return h.body
+    return None
 
 
 def _record_field_assign(S: LoaderSummary, fid, target: str, val: ast.expr, st: ast.stmt, src_path, handler_trail) -> None:
